@@ -175,7 +175,17 @@ pub open spec fn children_done(m: &naga::Module, v: Set<naga::Handle<naga::Type>
 // the precondition of a call for type c in state v: c is in the arena, and every finished type at or below c already has its
 // contents in the set (in-progress ancestors have larger handles)
 pub open spec fn type_call_ok(m: &naga::Module, v: Set<naga::Handle<naga::Type>>, c: int) -> bool {
-    0 <= c < ntypes(m) && closed_upto(m, v, c)
+    &&& 0 <= c < ntypes(m) && closed_upto(m, v, c)
+    // a consequence of the line above in a bottom-up arena (lemma_seen_already), stated so that the "already in the set" exit
+    // needs no hint, whatever shape it has (early return, guard around the rest, ..)
+    &&& seen(v, c) ==> all_reached(m, v, c)
+}
+// what a caller that keeps the set closed has to show
+pub proof fn lemma_call_ok_from_closed(m: &naga::Module, v: Set<naga::Handle<naga::Type>>, c: int)
+    requires types_wf(m), 0 <= c < ntypes(m), closed_upto(m, v, c),
+    ensures type_call_ok(m, v, c),
+{
+    if seen(v, c) { lemma_seen_already(m, v, c); }
 }
 // the precondition of the recursive call for ANY directly contained type c of t, in ANY in-progress state v
 pub open spec fn child_ready(m: &naga::Module, v0: Set<naga::Handle<naga::Type>>, t: int) -> bool {
@@ -187,6 +197,7 @@ pub proof fn lemma_child_ready(m: &naga::Module, v0: Set<naga::Handle<naga::Type
 {
     assert forall|v: Set<naga::Handle<naga::Type>>, c: int| frame(m, v0, v, t) && edge(m, t, c) implies #[trigger] type_call_ok(m, v, c) && 0 <= c < t by {
         lemma_child_pre(m, v0, v, t, c);
+        lemma_call_ok_from_closed(m, v, c);
     }
 }
 pub proof fn lemma_enter(m: &naga::Module, v0: Set<naga::Handle<naga::Type>>, v1: Set<naga::Handle<naga::Type>>, t: int)
